@@ -88,11 +88,16 @@ class OsProxy(object):
     remove = unlink
 
     def replace(self, src, dst, *a, **kw):
+        if self._w.io_fault("eacces_replace"):
+            # Windows refuses to replace a library another process has loaded
+            raise PermissionError(13, "Permission denied (simulated)", dst)
         r = _real_os.replace(src, dst, *a, **kw)
         self._w.on_fileop("replace", src, dst)
         return r
 
     def rename(self, src, dst, *a, **kw):
+        if self._w.io_fault("eacces_replace"):
+            raise PermissionError(13, "Permission denied (simulated)", dst)
         r = _real_os.rename(src, dst, *a, **kw)
         self._w.on_fileop("rename", src, dst)
         return r
